@@ -60,7 +60,7 @@ def run(ctx):
 
     pipe = Pipeline(ctx, 'C03_Trace', on_reject, lambda e: [e['fn'], e.get('x', e.get('v')), e['via']],
                     parallel=2 if quick else 4)
-    events = Sink(ctx, pipe, lambda e: e['fn'], ['cint', 'int', 'd2s', 'hex', 'cv', 'mki'])
+    events = Sink(ctx, pipe, lambda e: e['fn'], ['cint', 'int', 'd2s', 'hex', 'cv', 'mki'], drv=d)
     ptext = 0.08 if quick else 0.04      # share of float cases driven through BASIC text
 
     # ---- all 65536 integers ------------------------------------------------
